@@ -284,24 +284,56 @@ def graph_lookups(ctx: Ctx, rule: str) -> None:
             text = re.sub(rf"\b{a}\b", b, text)
         return text
 
-    a = canon(f"{G}.get_nodes", [("nodes", "ITEMS"), ("n", "IT")])
-    b = canon(f"{G}.get_objects", [("objects", "ITEMS"), ("o", "IT")])
-    want = ("regex = re.compile(param_val)\nsubset = self.ITEMS if subset is None else subset\n"
-            "ITEMS = [IT for IT in subset if param_key in IT.params and regex.search(IT.params[param_key])]\n"
-            "return TestGraph._unique_filter(ITEMS) if unique else ITEMS")
-    ok = a == b == want
-    ctx.record(rule, "SIBLING", f"{G}.get_nodes / get_objects", "both: every element of the subset (default: all) whose parameter exists and matches the regex (search); unique -> exactly one", ok,
-               {"get_nodes": a if a != want else "reference", "get_objects": b if b != want else "reference"}, "" if ok else "get_nodes and get_objects no longer select 'parameter present and regex found' alike")
-    a = canon(f"{G}.get_nodes_by_restr", [("filtered_nodes", "ITEMS"), ("get_nodes", "GET")])
-    b = canon(f"{G}.get_objects_by_restr", [("filtered_objects", "ITEMS"), ("get_objects", "GET")])
-    from ..canon import canon_text
+    from .. import semtab
 
-    want_only = canon_text("regex = '(\\\\.|^)(' + or_restriction.replace(',', '|') + ')(\\\\.|$)'")
-    want_no = canon_text("regex = '^(?!.*(\\\\.|^)(' + or_restriction.replace(',', '|') + ')(\\\\.|$))'")
-    ok2 = str(a) == str(b) and want_only in a and want_no in a \
-        and "ITEMS = self.GET(param_val=regex, subset=ITEMS)" in a and a.rstrip().endswith("return TestGraph._unique_filter(ITEMS) if unique else ITEMS")
-    ctx.record(rule + "r", "SIBLING", f"{G}.get_nodes_by_restr / get_objects_by_restr", "both: per line `only a,b` keeps names containing a or b as whole variants, `no a,b` drops them; filters are applied successively", ok2,
-               {"equal": a == b}, "" if ok2 else "the restriction filters for nodes and objects differ or no longer match whole variants")
+    def tab(fref, ren, part="all", outs=()):
+        f = ctx.repo.func(fref)
+        ctx.touch(fref)
+        body = semtab.strip(f.node.body)
+        loops = [s_ for s_ in body if isinstance(s_, ast.For)]
+        if part == "all":
+            return semtab.block_table(body, outs, ren)
+        if len(loops) != 1:
+            raise AnalysisError(f"{fref}: expected one filter loop")
+        if part == "loop":
+            return semtab.block_table(loops[0].body, outs, ren), ast.unparse(semtab.renamed(loops[0].iter, ren)), ast.unparse(loops[0].target)
+        return semtab.block_table([s_ for s_ in body if s_ is not loops[0]], outs, ren)
+
+    a = tab(f"{G}.get_nodes", {"nodes": "ITEMS", "n": "IT", ".nodes": ".ITEMS"})
+    b = tab(f"{G}.get_objects", {"objects": "ITEMS", "o": "IT", ".objects": ".ITEMS"})
+    want = semtab.reference_table("""
+        regex = re.compile(param_val)
+        subset = self.ITEMS if subset is None else subset
+        ITEMS = [IT for IT in subset if param_key in IT.params and regex.search(IT.params[param_key])]
+        return TestGraph._unique_filter(ITEMS) if unique else ITEMS
+    """)
+    why = semtab.mismatch(a, b) or semtab.mismatch(a, want)
+    ctx.record(rule, "SIBLING", f"{G}.get_nodes / get_objects", "both: every element of the subset (default: all) whose parameter exists and matches the regex (search); unique -> exactly one", not why,
+               {"rows": len(a)}, "" if not why else f"get_nodes and get_objects no longer select 'parameter present and regex found' alike: {why}")
+    rn = {"filtered_nodes": "ITEMS", "get_nodes": "GET", ".get_nodes": ".GET"}
+    ro = {"filtered_objects": "ITEMS", "get_objects": "GET", ".get_objects": ".GET"}
+    (la, ia, va), (lb, ib, vb) = tab(f"{G}.get_nodes_by_restr", rn, "loop", ("ITEMS",)), tab(f"{G}.get_objects_by_restr", ro, "loop", ("ITEMS",))
+    la = semtab.block_table(semtab.strip([s_ for s_ in ctx.repo.func(f"{G}.get_nodes_by_restr").node.body if isinstance(s_, ast.For)][0].body), ("ITEMS",), {**rn, va: "LINE"})
+    lb = semtab.block_table(semtab.strip([s_ for s_ in ctx.repo.func(f"{G}.get_objects_by_restr").node.body if isinstance(s_, ast.For)][0].body), ("ITEMS",), {**ro, vb: "LINE"})
+    wl = semtab.reference_table(r"""
+        if LINE.startswith("only "):
+            or_restriction = LINE.replace("only ", "").replace(" ", "").strip()
+            regex = "(\\.|^)(" + or_restriction.replace(",", "|") + ")(\\.|$)"
+        elif LINE.startswith("no "):
+            or_restriction = LINE.replace("no ", "").replace(" ", "").strip()
+            regex = "^(?!.*(\\.|^)(" + or_restriction.replace(",", "|") + ")(\\.|$))"
+        ITEMS = self.GET(param_val=regex, subset=ITEMS)
+    """, ("ITEMS",))
+    ra, rb = tab(f"{G}.get_nodes_by_restr", rn, "rest", ("ITEMS",)), tab(f"{G}.get_objects_by_restr", ro, "rest", ("ITEMS",))
+    wr = semtab.reference_table("""
+        ITEMS = subset
+        return TestGraph._unique_filter(ITEMS) if unique else ITEMS
+    """, ("ITEMS",))
+    why2 = semtab.mismatch(la, lb) or semtab.mismatch(la, wl) or semtab.mismatch(ra, rb) or semtab.mismatch(ra, wr) or \
+        ("" if ia == ib == "restriction.splitlines()" else f"the filters iterate over {ia} / {ib}")
+    ctx.record(rule + "r", "SIBLING", f"{G}.get_nodes_by_restr / get_objects_by_restr", "both: per line `only a,b` keeps names containing a or b as whole variants, `no a,b` drops them "
+               "(blanks inside the list ignored); filters are applied successively starting from the subset", not why2,
+               {"loop_rows": len(la)}, "" if not why2 else f"the restriction filters for nodes and objects differ or no longer match whole variants: {why2}")
     f = ctx.repo.func(f"{G}._unique_filter")
     ctx.touch(f.ref)
     body = [ast.unparse(s_) for s_ in f.node.body if not (isinstance(s_, ast.Expr) and isinstance(s_.value, ast.Constant))]
